@@ -307,6 +307,15 @@ def run(ctx: core.Ctx, only=None) -> core.Result:
                                               'input': {**case, 'mode': mode, 'point_kind': kind, 'point': p,
                                                         'history': [list(a) + list(b) for a, b in hist]},
                                               'impl': g, 'model': e, 'scale': s_})
+                    if kind != 'near-inside-tol':
+                        # away from the coincidence band the model value IS the property's right-hand side (theorem
+                        # C05.term_is_tensor_lagrange_interpolant: each model term is the unique tensor-product interpolant of
+                        # the stored data, summed with the inclusion-exclusion weights): the point is a failing input
+                        res.failures.append({'kind': 'surrogate-value-differs-from-the-weighted-sum-of-interpolants',
+                                             'signature': 'none',
+                                             'input': {**case, 'mode': mode, 'point_kind': kind, 'point': p,
+                                                       'history': [list(a) + list(b) for a, b in hist]},
+                                             'observed': g, 'expected': e, 'scale': s_})
     return res
 
 
